@@ -123,6 +123,14 @@ func runCase(c Case, r *runlog.R) error {
 	used := map[string]int{}
 	nt := false
 	prev := a
+	// *Config sources are kept: a source is not changed by being merged from (nor by later merges into the
+	// destination), so the same object can be merged again and gives the same contribution
+	type kept struct {
+		cfg  *ucfg.Config
+		tree *gen.Tree
+		pol  model.Policy
+	}
+	var keptSrc []kept
 	for si, st := range c.Steps {
 		b := wrap(st.B, c.Wrap)
 		if deepOverlap(prev, b) || overlap(prev, b) {
@@ -135,6 +143,9 @@ func runCase(c Case, r *runlog.R) error {
 			src, err := source(b, k, used)
 			if err != nil {
 				return fmt.Errorf("step %d: building the %s source failed: %v", si, reprNames[k], err)
+			}
+			if sc, ok := src.(*ucfg.Config); ok && k == 2 {
+				keptSrc = append(keptSrc, kept{sc, b, st.Policy})
 			}
 			err = uc.Safe("Merge", func() error { return cfg.Merge(src, uc.PolicyOpts(st.Policy)...) })
 			if err != nil {
@@ -151,6 +162,29 @@ func runCase(c Case, r *runlog.R) error {
 		}
 		r.Class("policy=" + st.Policy.String())
 	}
+	// merge the kept source objects once more, oldest first, into the config that received *Config sources
+	for i, ks := range keptSrc {
+		model.MergeCont(ks.pol, nil, m, model.FromTree(ks.tree))
+		if err := uc.Safe("Merge", func() error { return cfgs[2].Merge(ks.cfg, uc.PolicyOpts(ks.pol)...) }); err != nil {
+			return fmt.Errorf("merging the *Config source of step %d a second time failed: %v", i, err)
+		}
+		got, err := uc.Dump(cfgs[2])
+		if err != nil {
+			return fmt.Errorf("unpacking the result failed: %v", err)
+		}
+		if want := m.Reify(); !canon.EqualSplit(got, want) {
+			return fmt.Errorf("merging the *Config source of step %d (%v) a second time, after the rest of the chain: result differs from the model (was the source modified by the earlier merges?)\n got  %s\n want %s",
+				i, ks.pol, canon.String(canon.Split(canon.Of(got))), canon.String(canon.Split(canon.Of(want))))
+		}
+		src, err := uc.Dump(ks.cfg)
+		if err != nil {
+			return err
+		}
+		if !canon.EqualSplit(src, ks.tree.Go()) {
+			return fmt.Errorf("the *Config source of step %d no longer holds its own data\n got  %s\n want %s", i, canon.Show(src), canon.Show(ks.tree.Go()))
+		}
+		r.Class("*Config source merged a second time")
+	}
 	r.NonTrivialIf(nt)
 	r.ClassIf(c.Wrap, "wrapped")
 	r.ClassIf(c.A.K == "list", "top-level list")
@@ -162,7 +196,7 @@ func runCase(c Case, r *runlog.R) error {
 
 var subModel = runlog.Register(&runlog.Sub[Case]{
 	Name: "merge-model",
-	Rule: "chains A<-B1..Bk (k<=3) of random trees over keys {a,b,c,d,0,1}, each merge under one of the 5 global policies, B given as generic map, in a mixed Go representation (structs, typed maps/slices, pointers, *Config) and as *Config; result compared with the reference merge model after every step. Non-trivial: two consecutive operands share a path where both are non-empty containers or their kinds differ (container vs other). Distinct: hash of the whole case.",
+	Rule: "chains A<-B1..Bk (k<=3) of random trees over keys {a,b,c,d,0,1}, each merge under one of the 5 global policies, B given as generic map, in a mixed Go representation (structs, typed maps/slices, pointers, *Config) and as *Config; result compared with the reference merge model after every step; at the end every *Config source object is merged a second time (and must still hold its own data). Non-trivial: two consecutive operands share a path where both are non-empty containers or their kinds differ (container vs other). Distinct: hash of the whole case.",
 	Gen:  genCase,
 	Run:  runCase,
 })
